@@ -756,6 +756,31 @@ def _thread(stmts, func):
     return None
 
 
+def _callee_ifexp(stmts, func):
+    """h = A if c else B  (c a simple read, h later called)  ->  if c: h = A else: h = B   so that the call through h
+    can be threaded into the two branches."""
+    called = set(n.func.id for n in ast.walk(func) if isinstance(n, ast.Call) and isinstance(n.func, ast.Name))
+    out = []
+    changed = False
+    for s in stmts:
+        if isinstance(s, ast.Assign) and len(s.targets) == 1 and isinstance(s.targets[0], ast.Name) \
+                and s.targets[0].id in called and isinstance(s.value, ast.IfExp) and _simple(_atom(s.value.test)[0]) \
+                and _simple(s.value.body) and _simple(s.value.orelse):
+            nm = s.targets[0].id
+            new = ast.If(test=s.value.test,
+                         body=[ast.Assign(targets=[ast.Name(id=nm, ctx=ast.Store())], value=s.value.body)],
+                         orelse=[ast.Assign(targets=[ast.Name(id=nm, ctx=ast.Store())], value=s.value.orelse)])
+            ast.copy_location(new, s)
+            for x in new.body + new.orelse:
+                ast.copy_location(x, s)
+            ast.fix_missing_locations(new)
+            out.append(new)
+            changed = True
+            continue
+        out.append(s)
+    return out if changed else None
+
+
 def _callee_copy(stmts, func):
     changed = False
     for i in range(len(stmts) - 1):
@@ -1108,6 +1133,24 @@ def _repeated_tests(stmts, func):
     drops paths asserting an atom both ways."""
     changed = [False]
 
+    class FoldIfExp(ast.NodeTransformer):
+        def __init__(self, text, truth):
+            self.text, self.truth = text, truth
+
+        def visit_IfExp(self, n):
+            self.generic_visit(n)
+            e, neg = _atom(n.test)
+            if _simple(e) and ast.unparse(e) == self.text:
+                changed[0] = True
+                return n.body if (self.truth != neg) else n.orelse
+            return n
+
+        def visit_FunctionDef(self, n):
+            return n
+
+        def visit_Lambda(self, n):
+            return n
+
     def fold_in(branch, text, truth, names):
         if any(n in _stores(branch) for n in names):
             return branch
@@ -1116,6 +1159,8 @@ def _repeated_tests(stmts, func):
             if isinstance(st, _DEF):
                 out.append(st)
                 continue
+            if isinstance(st, (ast.Assign, ast.Expr, ast.Return, ast.AugAssign)):
+                st = FoldIfExp(text, truth).visit(st)
             if isinstance(st, ast.If):
                 e, neg = _atom(st.test)
                 if _simple(e) and ast.unparse(e) == text:
@@ -1237,6 +1282,7 @@ def simple_passes(modules, log):
                             ('tuple assignment split', _tuple_split),
                             ('constant test folded', _fold_const_tests),
                             ('repeated test decided', _repeated_tests),
+                            ('conditional callee expanded', _callee_ifexp),
                             ('continuation threaded into the tails of a flag-setting statement', _thread),
                             ('callee copy-propagated', _callee_copy),
                             ('single-use temporary forwarded', _temp_forward)):
